@@ -85,6 +85,8 @@ def make_vector(L, spec):
             if a == 0 and b == 0:
                 a = 1
             c[k] = [a, b]
+    if spec.get("c00"):                             # a nearly spherical function: one huge degree-0 term
+        c[0] = [int(spec["c00"]), 0]
     return c
 
 
@@ -220,6 +222,14 @@ def drive(recipe):
     from scipy.spatial.transform import Rotation
     for k in range(recipe.get("nrot", 0)):
         R = Rotation.random(random_state=recipe["rotseed"] + k).as_matrix()
+        if recipe["vec"].get("c00"):
+            # the degree-0 term is rotation invariant: rotate the rest numerically and put the huge term back exactly (the
+            # rotated small coefficients are generic binary fractions next to a term 10^4 times larger)
+            cp = rotate_numeric(L, [[0, 0]] + [list(x) for x in c[1:]], R)
+            cp[0] = complex(c[0][0], c[0][1])
+            flat, aq = quantise(cp)
+            t["events"].append(event("Rotate", cq=flat, o=observe(lambda: f(aq))))
+            continue
         flat, aq = quantise(rotate_numeric(L, c, R))
         t["events"].append(event("Rotate", cq=flat, o=observe(lambda: f(aq))))
     return t
@@ -249,6 +259,19 @@ def recipes_for(ctx):
                         r["perturb"] = 4
                     if what == "P":
                         r["zero"] = sorted(rng.sample(range(1, L + 1), min(L, ctx.pick(3, 6))))
+                    rs.append(r)
+    # large dynamic range between degrees (|c_00| = 2e4..4.6e4 against coefficients of size 1-2): every N_l must still be exact
+    for L in range(1, 13):
+        for cls in ("cplx", "herm"):
+            for v in range(ctx.pick(1, 3)):
+                vec = {"cls": cls, "seed": nxt(), "hi": 1, "c00": rng.choice([33333, 46000])}
+                rotseed = nxt() * 100
+                for what in ("N", "Power"):
+                    # power[0] = |c_00|^2 must stay below the fixed-point range 2^19 of the observations
+                    r = {"what": what, "L": L, "vec": vec if what == "N" else dict(vec, c00=rng.choice([500, 700])),
+                         "seed": nxt(), "nrot": 2, "rotseed": rotseed}
+                    if what == "N":
+                        r["perturb"] = 3
                     rs.append(r)
     for L in list(range(1, 13)) + [22, 23, 24, 25, 26]:
         for v in range(ctx.pick(1, 3)):
